@@ -491,6 +491,48 @@ def netIfAddrsEntry (cfg : Cfg) (windows : Bool) (r : RawAddr) : OutAddr :=
     | none => nt
   else nt
 
+/-! ## Below `PidState`: the native status code in the probe record
+
+  `Env.state = .zombie` abstracts "the status slot of the record the probe reads holds a code the
+  probe takes for a zombie". Which codes those are depends on the comparison `is_zombie(pid)`
+  makes (translator fact per module) and, for the `PROC_STATUSES` shape, on the identity's
+  `PROC_STATUSES` table (translator fact per identity: OpenBSD maps both `SDEAD` and `SZOMB`). -/
+
+/-- the comparison in `is_zombie(pid)` -/
+inductive ZProbe
+  | procStatuses             -- `PROC_STATUSES.get(st) == _common.STATUS_ZOMBIE`
+  | eqConst (c : String)     -- `st == cext.<c>`
+  | noStatusProbe            -- Solaris / AIX / Windows: the decorator never reads a status code
+  | unknown
+  deriving DecidableEq, Repr
+
+def ZProbe.ofTag (s : String) : ZProbe :=
+  if s == "procStatuses" then .procStatuses
+  else if s == "none" then .noStatusProbe
+  else match s.toList with
+    | 'e' :: 'q' :: ':' :: rest => .eqConst (String.ofList rest)
+    | _ => .unknown
+
+structure ZCfg where
+  probe : Family → ZProbe
+  /-- native codes the identity's `PROC_STATUSES` maps to `STATUS_ZOMBIE` -/
+  zombieCodes : Platform → List String
+
+/-- does the module's probe take a pid whose status slot holds `code` for a zombie?
+    (modules without a status probe: the world marks a zombie by a code of the module's table) -/
+def probeIsZombie (z : ZCfg) (p : Platform) (code : String) : Bool :=
+  match z.probe p.family with
+  | .procStatuses => (z.zombieCodes p).contains code
+  | .eqConst c => code == c
+  | .noStatusProbe => (z.zombieCodes p).contains code
+  | .unknown => false
+
+/-- the world as the probe sees it, from the native status code (`none`: no record, the pid is gone) -/
+def probeEnv (z : ZCfg) (p : Platform) (pid : Nat) (status : Option String) (listed : Bool) : Env :=
+  ⟨pid, (match status with
+         | none => .gone
+         | some c => if probeIsZombie z p c then .zombie else .alive), listed⟩
+
 /-! ## Front end: the other platform-conditional branches that transform a value
   (`psutil/__init__.py`; the full list of branches with their tests is the translator fact
   `frontBranches`, classified in `Spec.frontBranches`) -/
